@@ -39,14 +39,8 @@ from pynguin.instrumentation.transformer import ModuleAstInfo
 
 PROPERTY = "C08"
 ROOT = os.path.dirname(os.path.dirname(os.path.abspath(__file__)))
-SRC = open(os.path.join(ROOT, "corpus", "C08_excl.py")).read()
-LINES = SRC.splitlines()
-TREE = ast.parse(SRC)
 MARKS = ("  # pragma: no cover", "  # pynguin: no cover", "  #  pragma:  no  cover")
-
-# candidate lines for a marker: every non-blank, non-comment, non-docstring line
-_doc_end = TREE.body[0].end_lineno if isinstance(TREE.body[0], ast.Expr) else 0
-CANDIDATES = [i for i, ln in enumerate(LINES, start=1) if ln.strip() and not ln.strip().startswith("#") and i > _doc_end]
+CORPORA = ("C08_excl.py", "C08_deco.py")
 
 
 def _scopes(node, prefix=""):
@@ -59,8 +53,24 @@ def _scopes(node, prefix=""):
             yield from _scopes(child, prefix)
 
 
-SCOPES = list(_scopes(TREE))
-SCOPE_NAMES = [n for n, _ in SCOPES]
+def _use(corpus: int) -> None:
+    """Select the corpus module the harness functions below work on (one obligation, one process)."""
+    global SRC, LINES, TREE, CANDIDATES, SCOPES, SCOPE_NAMES, FIRSTLINE, NC, NS
+    SRC = open(os.path.join(ROOT, "corpus", CORPORA[corpus])).read()
+    LINES = SRC.splitlines()
+    TREE = ast.parse(SRC)
+    # candidate lines for a marker: every non-blank, non-comment, non-docstring line
+    doc_end = TREE.body[0].end_lineno if isinstance(TREE.body[0], ast.Expr) else 0
+    CANDIDATES = [i for i, ln in enumerate(LINES, start=1) if ln.strip() and not ln.strip().startswith("#") and i > doc_end]
+    SCOPES = list(_scopes(TREE))
+    SCOPE_NAMES = [n for n, _ in SCOPES]
+    # first line a code object reports (the first decorator) -> line of its def/class keyword
+    FIRSTLINE = {min([n.lineno, *(d.lineno for d in n.decorator_list)]): n.lineno for _, n in SCOPES}
+    NC = len(CANDIDATES)
+    NS = len(SCOPE_NAMES)
+
+
+_use(0)
 
 
 def _rng(nodes):
@@ -113,6 +123,11 @@ def excluded_lines(marked: set[int], no_cover: list[str], only_cover: list[str])
         if name in no_cover:
             out.update(range(node.lineno, node.end_lineno + 1))
     unconstrained: set[int] = set()
+    for _name, node in SCOPES:
+        # a marker inside a decorator excludes the marked line; whether it also excludes the decorated
+        # scope (coverage.py does) is not claimed either way
+        if any(ln in marked for d in node.decorator_list for ln in range(d.lineno, d.end_lineno + 1)):
+            unconstrained.update(range(node.lineno, node.end_lineno + 1))
     if only_cover:
         # innermost enclosing def/class of every line
         innermost: dict[int, str] = {}
@@ -182,7 +197,7 @@ def _evaluate(marks: list[tuple[int, int]], no_cover: list[str], only_cover: lis
             return False
     for meta in sp.existing_code_objects.values():
         co = meta.code_object
-        if co.co_name != "<module>" and co.co_firstlineno in excluded:
+        if co.co_name != "<module>" and FIRSTLINE.get(co.co_firstlineno, co.co_firstlineno) in excluded:
             return False
     # (2) every executable line outside excluded code is a line goal
     executable: dict[int, set[str]] = {}
@@ -257,15 +272,11 @@ def _evaluate_hook(no_cover: list[str], ignore: list[str]) -> bool:
         return False
     for meta in sp.existing_code_objects.values():
         co = meta.code_object
-        if co.co_name != "<module>" and co.co_firstlineno in excluded:
+        if co.co_name != "<module>" and FIRSTLINE.get(co.co_firstlineno, co.co_firstlineno) in excluded:
             return False
     executable: dict[int, set[str]] = {}
     _code_lines(compile(SRC, path, "exec"), executable)
     return all(ln in excluded or ln in registered for ln in executable)
-
-
-NC = len(CANDIDATES)
-NS = len(SCOPE_NAMES)
 
 
 def h_import_hook(s: int, t: int, use_no_cover: bool) -> bool:
@@ -346,6 +357,53 @@ def h_only_and_no_cover(s: int, t: int) -> bool:
     return reach(_run([], [SCOPE_NAMES[t]], [SCOPE_NAMES[s]]))
 
 
+def h_deco_one_marker(m: int, kind: int) -> bool:
+    """
+    pre: 0 <= m < 64 and 0 <= kind <= 2
+    post: _
+    """
+    _use(1)
+    m, kind = realize((m, kind))
+    if m >= NC:
+        return reach(True)
+    return reach(_run([(CANDIDATES[m], kind)], [], []))
+
+
+def h_deco_no_cover(s: int, m: int) -> bool:
+    """
+    pre: 0 <= s < 16 and -1 <= m < 64
+    post: _
+    """
+    _use(1)
+    s, m = realize((s, m))
+    if s >= NS or m >= NC:
+        return reach(True)
+    marks = [] if m < 0 else [(CANDIDATES[m], 0)]
+    return reach(_run(marks, [SCOPE_NAMES[s]], []))
+
+
+def h_deco_only_cover(s: int, m: int) -> bool:
+    """
+    pre: 0 <= s < 16 and -1 <= m < 64
+    post: _
+    """
+    _use(1)
+    s, m = realize((s, m))
+    if s >= NS or m >= NC:
+        return reach(True)
+    marks = [] if m < 0 else [(CANDIDATES[m], 0)]
+    return reach(_run(marks, [], [SCOPE_NAMES[s]]))
+
+
+def h_deco_import_hook(s: int, t: int, use_no_cover: bool) -> bool:
+    """
+    pre: 0 <= s < 16 and 0 <= t < 16
+    post: _
+    """
+    _use(1)
+    return h_import_hook(s, t, use_no_cover)
+
+
 META = {
     "level": "model_checking",
     "claim": "Bounded, solver-enumerated: for the exclusions corpus (if/elif/else, for/while..else, try/except/else/finally, match, "
@@ -356,15 +414,15 @@ META = {
              "excluded code is a registered line. The oracle is an independent AST-containment computation.",
     "note": "Marker placement and scope choice are realised before rendering/parsing (C boundary): obligations are "
             "solver-enumerated concrete configurations, exhaustive within the bound. One corpus module; `with` headers, "
-            "decorators and async constructs are outside; install_import_hook's ignore_methods -> no_cover mapping is exercised "
+            "async constructs are outside; decorated functions, methods and classes are in corpus/C08_deco.py (a marker inside a decorator excludes its line, the decorated scope is then not constrained); install_import_hook's ignore_methods -> no_cover mapping is exercised "
             "through the real hook for every (no_cover scope, ignored scope) pair.",
     "functions": ["ModuleAstInfo.from_path/_find_lines_in_source_code/_find_lines_in_ast/_find_excluded_block_lines/get_scope",
                   "AstInfo._in_cover/should_be_covered/should_cover_line/should_cover_conditional_statement",
                   "InstrumentationTransformer.instrument_code/_instrument_code_recursive", "machinery.install_import_hook/"
                   "InstrumentationFinder/InstrumentationLoader",
                   "Branch/LineCoverageInstrumentation.visit_node (exclusion guards)"],
-    "bounds": {"markers": "<= 2 per module, 3 spellings", "scope lists": "<= 1 name each", "corpus": "corpus/C08_excl.py"},
-    "outside": ["other modules", "more than two markers", "with/async/decorator headers", "CHECKED metric"],
+    "bounds": {"markers": "<= 2 per module, 3 spellings", "scope lists": "<= 1 name each", "corpus": "corpus/C08_excl.py, corpus/C08_deco.py"},
+    "outside": ["other modules", "more than two markers", "with/async headers", "CHECKED metric"],
     "assumptions": ["a marker on a clause header excludes that clause (coverage.py semantics); module-level statements are not "
                     "constrained by only_cover"],
 }
@@ -381,6 +439,12 @@ def obligations(tier: str):
            Chx("only_cover", h_only_cover, timeout=T, split={"s": list(range(0, 10))}, path_timeout=60),
            Chx("only_and_no_cover", h_only_and_no_cover, timeout=T, split={"s": list(range(0, 10))}, path_timeout=60),
            Chx("import_hook_ignore_methods", h_import_hook, timeout=T, split={"s": list(range(0, 10))}, path_timeout=60)]
+    nd = 13  # scopes of corpus/C08_deco.py
+    obs += [Chx("deco_one_marker", h_deco_one_marker, timeout=T, split={"kind": [0, 1] if q else [0, 1, 2]}, path_timeout=60),
+            Chx("deco_no_cover", h_deco_no_cover, timeout=T, split={"s": list(range(nd))}, path_timeout=60),
+            Chx("deco_only_cover", h_deco_only_cover, timeout=T, split={"s": list(range(nd))}, path_timeout=60),
+            Chx("deco_import_hook_ignore_methods", h_deco_import_hook, timeout=T,
+                split={"s": [3, 7] if q else list(range(nd))}, path_timeout=60)]
     if q:
         obs.append(Chx("two_markers", h_two_markers, timeout=T, fix={"kind": 0}, split={"m1": list(range(0, 56, 4))}, path_timeout=60))
     else:
